@@ -699,6 +699,47 @@ func main() {
 	unselLabels := []string{"nil", "empty", "other"}
 	annosDim := []string{"nil", "empty", "other"}
 
+	// The two shapes on which the unchanged code is known to miss the property are enumerated first and as
+	// small products of their own (a counterexample is looked up by scanning the case file from its start);
+	// the large products below stay clear of them.
+	// ---- Advanced DaemonSet whose updateStrategy has no rollingUpdate block (family N)
+	{
+		shapes := [][3]string{{"sel", "nil", "none"}, {"selother", "other", "none"}, {"sel", "empty", "none"}, {"selother", "nil", "none"}}
+		ci := 0
+		for _, st := range []string{"ondelete", "rollingNoBlock", "absent"} {
+			for _, rep := range []int{3, 0} {
+				for _, ids := range [][2]string{{"", ""}, {"", "a"}, {"a", "a"}, {"a", "b"}, {"a", ""}} {
+					for _, t := range []string{"changed", "same"} {
+						for _, ro := range []string{"canary", "", "traffic", "disabled", "othername+bluegreen"} {
+							sh := shapes[ci%len(shapes)]
+							g.emit(P{Fam: "N", Kind: "DaemonSet", Labels: sh[0], Annos: sh[1], Replicas: rep, OldID: ids[0], NewID: ids[1], Tmpl: t,
+								Marker: sh[2], Strategy: st, Style: "none", Roset: ro, Single: true})
+							ci++
+						}
+					}
+				}
+			}
+		}
+	}
+	// ---- Deployment in progress whose marker names a Rollout that is not (any longer) the matching one (family S)
+	{
+		shapes := [][2]string{{"canary", "sel"}, {"", "selother"}, {"traffic", "sel"}, {"disabled+bluegreen", "selother"}, {"othername", "sel"}}
+		ci := 0
+		for _, style := range []string{"none", "canary", "partition", "bluegreen"} {
+			for _, pa := range []bool{false, true} {
+				for _, st := range []string{"absent", "rolling"} {
+					for _, ids := range [][2]string{{"", ""}, {"", "a"}, {"a", "a"}, {"a", "b"}, {"a", ""}} {
+						for _, t := range []string{"changed", "same"} {
+							sh := shapes[ci%len(shapes)]
+							g.emit(P{Fam: "S", Kind: "Deployment", Labels: sh[1], Annos: "other", Replicas: 3, OldID: ids[0], NewID: ids[1], Tmpl: t,
+								Marker: "other", Paused: pa, Strategy: st, Style: style, Roset: sh[0], Rs: 1 + (ci/5)%2})
+							ci++
+						}
+					}
+				}
+			}
+		}
+	}
 	// ---- Deployment, not yet in progress (family A)
 	{
 		type shape struct {
@@ -750,14 +791,14 @@ func main() {
 			}
 		}
 		ci := 0
-		for _, mk := range []string{"own", "other"} {
+		for _, mk := range []string{"own"} {
 			for _, style := range []string{"none", "canary", "partition", "bluegreen"} {
 				for _, pa := range []bool{false, true} {
 					for _, st := range []string{"absent", "rolling", "rollingNoBlock", "recreate"} {
 						for _, rep := range []int{0, 3} {
 							for _, ids := range idPairs {
 								for _, t := range tmplDim {
-									cycle(ci, kShape(2, 8), len(shapes), func(si int) {
+									cycle(ci, kShape(3, 12), len(shapes), func(si int) {
 										sh := shapes[si]
 										g.emit(P{Fam: "B", Kind: "Deployment", Labels: sh.labels, Annos: sh.annos, Replicas: rep, OldID: ids[0], NewID: ids[1], Tmpl: t,
 											Marker: mk, Paused: pa, Strategy: st, Style: style, Roset: sh.roset, Rs: sh.rs})
@@ -814,12 +855,12 @@ func main() {
 			}
 		}
 		ci := 0
-		for _, st := range []string{"absent", "rolling", "rollingNoPartition", "rollingNoBlock", "ondelete"} {
+		for _, st := range []string{"rolling", "rollingNoPartition"} { // with a rollingUpdate block; without: family N
 			for _, rep := range []int{0, 3} {
 				for _, ids := range idPairs {
 					for _, t := range tmplDim {
 						for _, ro := range rosets {
-							cycle(ci, kShape(2, 4), len(shapes), func(si int) {
+							cycle(ci, kShape(4, 8), len(shapes), func(si int) {
 								sh := shapes[si]
 								g.emit(P{Fam: "A", Kind: "DaemonSet", Labels: sh.labels, Annos: sh.annos, Replicas: rep, OldID: ids[0], NewID: ids[1], Tmpl: t,
 									Marker: sh.marker, Strategy: st, Style: "none", Roset: ro, Single: true})
@@ -905,6 +946,9 @@ func main() {
 			p.OldID, p.NewID = ids[0], ids[1]
 			p.Tmpl = pick("same", "hash", "changed", "anno", "label")
 			p.Marker = pick("none", "none", "own", "other")
+			if p.Kind == "Deployment" && p.Marker == "other" {
+				p.Marker = "own" // a stale marker on a Deployment: family S
+			}
 			p.Style = "none"
 			p.Single = rng.Intn(2) == 0
 			p.Extra = rng.Intn(2) == 0
@@ -918,7 +962,7 @@ func main() {
 			case "CloneSet":
 				p.Strategy = pick("absent", "int0", "pct50", "typeonly")
 			case "DaemonSet":
-				p.Strategy = pick("absent", "rolling", "rollingNoPartition", "rollingNoBlock", "ondelete")
+				p.Strategy = pick("rolling", "rollingNoPartition") // without the block: family N
 				if p.Replicas < 0 {
 					p.Replicas = 3
 				}
